@@ -122,13 +122,15 @@ def handle (args : List String) (impl : String) : R Ans :=
     pure { model := showTable out, verdict }
   | ["pipe", k, st, thr, reads] => do
     -- answer: `sigma=…|nodes=…|edges=…` of filter → prune → compress → finish on the real crate
-    let K ← nat k; let st ← bool st; let thr ← nat thr
+    -- `thr` = `<n>`: CountFilter(n); `s<n>`: CountFilterSet(n) with every read labelled 0 (payload = the code 1 of the label set {0})
+    let setMode := thr.startsWith "s"
+    let K ← nat k; let st ← bool st; let thr ← nat (if setMode then (thr.drop 1).toString else thr)
     let reads ← parseReads reads
     match field impl "sigma", field impl "nodes", field impl "edges" with
     | some sg, some nd, some ed => do
       let sigma ← natList sg
-      let some fr := Filter.filterKmers K reads (.count thr) st false 4 Gen.filterBytesPerUnit 16 | throw "filter-panic"
-      let T0 := Filter.removeCensoredExts st fr.table
+      let some fr := Filter.filterKmers K reads (if setMode then .set thr else .count thr) st false 4 Gen.filterBytesPerUnit 16 | throw "filter-panic"
+      let T0 := (Filter.removeCensoredExts st fr.table).map fun e => if setMode then { e with data := [1] } else e
       let T := sigma.filterMap fun i => T0[i]?
       let on := fun (f : Nat → Nat → Nat) (a b : List Nat) => [f (a.headD 0) (b.headD 0)]
       let res := compressKmersC T st (fun _ _ => true) (on fun a b => min (a + b) (2 ^ 32 - 1))
